@@ -34,7 +34,6 @@ type signRec struct {
 
 // monitor holds the oracles of the consensus-network simulation.
 type monitor struct {
-	propBlocks map[string]*types.Block // "h/r" -> complete proposal block some node held in that round
 	inCommit map[int]int64 // node -> incarnation<<40|height while it sits in the commit step
 	s  *sim
 	mu sync.Mutex // onSigned is called from node goroutines (several at once in real-ticker mode)
@@ -388,12 +387,6 @@ func (m *monitor) afterStep() {
 			}
 			m.checkReplica(n)
 			m.checkAssembled(n, rs)
-			if rs.ProposalBlock != nil && rs.Proposal != nil && rs.ProposalBlock.HashesTo(rs.Proposal.BlockID.Hash) {
-				if m.propBlocks == nil {
-					m.propBlocks = map[string]*types.Block{}
-				}
-				m.propBlocks[fmt.Sprintf("%d/%d", rs.Height, rs.Proposal.Round)] = rs.ProposalBlock
-			}
 			ck := int64(n.inc)<<40 | rs.Height
 			if rs.Step == cstypes.RoundStepCommit {
 				if m.inCommit == nil {
@@ -462,38 +455,31 @@ func (m *monitor) judgeRejections(n *simNode) {
 						// known finding (WeightedMedian selects the entry below the middle of an odd-sized
 						// multiset): only when the spec's median of the very commit in the refused block
 						// would have been later than the previous block
-						blk := m.propBlocks[fmt.Sprintf("%d/%d", rj.h, rj.r)]
-						for _, q := range m.s.nodes {
-							if blk == nil || blk.LastCommit == nil || !q.isAlive() {
-								continue
-							}
-							st := q.cs.GetState()
-							if st.LastBlockHeight != rj.h-1 {
-								continue
-							}
+						blk, lastVals := rj.blk, rj.lastVals
+						prev := m.hdrs[rj.h-1]
+						if blk != nil && blk.LastCommit != nil && lastVals != nil && prev != nil {
 							var byzPow int64
-							for _, val := range st.LastValidators.Validators {
+							for _, val := range lastVals.Validators {
 								if m.s.isByzAddr(val.Address) {
 									byzPow += val.VotingPower
 								}
 							}
-							if 3*byzPow >= st.LastValidators.TotalVotingPower() {
+							if 3*byzPow >= lastVals.TotalVotingPower() {
 								// validator updates have taken the faulty validators to a third of the power or
 								// more: outside the fault model under which block time is defined
 								outside = true
 							}
+							mt, below, ok := refMedianTime(blk.LastCommit, lastVals)
 							if debugLog {
-								mt, below, _ := refMedianTime(blk.LastCommit, st.LastValidators)
-								fmt.Fprintf(os.Stderr, "TIMEREJ h=%d blk.Time=%v median=%v below=%v last=%v\n", rj.h, blk.Time, mt, below, st.LastBlockTime)
+								fmt.Fprintf(os.Stderr, "TIMEREJ h=%d blk.Time=%v median=%v below=%v last=%v\n", rj.h, blk.Time, mt, below, prev.time)
 								for i, cs := range blk.LastCommit.Signatures {
-									_, v := st.LastValidators.GetByIndex(int32(i))
+									_, v := lastVals.GetByIndex(int32(i))
 									fmt.Fprintf(os.Stderr, "   sig %d flag=%d power=%d ts=%v byz=%v\n", i, cs.BlockIDFlag, v.VotingPower, cs.Timestamp, m.s.isByzAddr(v.Address))
 								}
 							}
-							if mt, below, ok := refMedianTime(blk.LastCommit, st.LastValidators); ok && below.Equal(blk.Time) && !mt.Equal(below) && mt.After(st.LastBlockTime) {
+							if ok && below.Equal(blk.Time) && !mt.Equal(below) && mt.After(prev.time) {
 								sig = "correct-proposal-rejected:block-time-median-below-middle"
 							}
-							break
 						}
 					}
 					if outside {
